@@ -79,10 +79,10 @@ func (g *GR4JRef) Step(P, E float64) float64 {
 		s := g.S / x1
 		Es = g.S * (2 - s) * w / (1 + (1-s)*w)
 	}
-	g.S = g.S - Es + Ps                                                   // eq. 5
+	g.S = g.S - Es + Ps                                                // eq. 5
 	perc := g.S * (1 - math.Pow(1+math.Pow(4.0/9.0*g.S/x1, 4), -0.25)) // eq. 6
-	g.S -= perc                                                           // eq. 7
-	Pr := perc + (Pn - Ps)                                                // eq. 8
+	g.S -= perc                                                        // eq. 7
+	Pr := perc + (Pn - Ps)                                             // eq. 8
 	u1, u2 := g.UH1(), g.UH2()
 	for k := range g.P9 { // eqs. 16-17 as a running convolution
 		g.P9[k] += 0.9 * Pr * u1[k]
@@ -95,9 +95,9 @@ func (g *GR4JRef) Step(P, E float64) float64 {
 	g.P9[len(g.P9)-1] = 0
 	copy(g.P1, g.P1[1:])
 	g.P1[len(g.P1)-1] = 0
-	F := g.X2 * math.Pow(g.R/g.X3, 3.5)                             // eq. 18
-	g.R = math.Max(0, g.R+Q9+F)                                      // eq. 19
-	Qr := g.R * (1 - math.Pow(1+math.Pow(g.R/g.X3, 4), -0.25))       // eq. 20
+	F := g.X2 * math.Pow(g.R/g.X3, 3.5)                        // eq. 18
+	g.R = math.Max(0, g.R+Q9+F)                                // eq. 19
+	Qr := g.R * (1 - math.Pow(1+math.Pow(g.R/g.X3, 4), -0.25)) // eq. 20
 	g.R -= Qr
 	Qd := math.Max(0, Q1+F) // eq. 21
 	return Qr + Qd
